@@ -1,6 +1,7 @@
 package oracle
 
 import (
+	"encoding/json"
 	"fmt"
 	"sort"
 	"strconv"
@@ -244,7 +245,6 @@ func explainG(sp *spec.Spec, t *spec.Type, v any) []string {
 	return out
 }
 
-
 // Trigger classes (the idea of c04.go): when the input of an exchange belongs to the trigger class of a triaged
 // root cause AND that root cause can account for this class of symptom, the key names the pair
 // (rt:trigger:<class>:<symptom>); otherwise the key is the granular description. A listed finding thus
@@ -256,8 +256,10 @@ var gExplains = map[string]map[string]bool{
 	// an attribute mapped to Metadata that declares a default, left out of a hand-built request: the generated
 	// decoder validates and forwards the zero value instead of the default
 	"metadata-default-absent": {"request-rejected": true, "default-not-applied": true},
+	"shared-wrapper-validation": {"request-rejected": true, "stream-c2s-rejected": true, "result-refused": true, "stream-s2c-refused": true,
+		"invalid-reached-stub": true, "invalid-result-accepted": true},
 }
-var gTagOrder = []string{"both-exclusive-bounds", "metadata-default-absent", "absent-collection-minlen", "nested-empty-collection"}
+var gTagOrder = []string{"both-exclusive-bounds", "metadata-default-absent", "absent-collection-minlen", "nested-empty-collection", "shared-wrapper-validation"}
 
 func gKey(symptom, granular string, tags []string) string {
 	for _, t := range gTagOrder {
@@ -266,6 +268,179 @@ func gKey(symptom, granular string, tags []string) string {
 		}
 	}
 	return granular
+}
+
+// ---- trigger class shared-wrapper-validation
+//
+// goa turns a collection nested in a collection into a wrapper message named after the element types only
+// (ArrayOfString, MapOfStringSint32 ...: grpc/docs/FAQ.md). Two nested collections of one service that have the
+// same structure share that message - and ONE validation function, generated from whichever attribute came first.
+// The other attribute is then validated against the wrong rules: its valid values are rejected, its invalid ones
+// accepted. The trigger class is computed from the design alone: the value holds a nested collection whose
+// structure is used, somewhere in the same service, with a different set of validations.
+
+func collSig(sp *spec.Spec, t *spec.Type, depth int) string {
+	rt, _ := sp.Resolve(t)
+	if rt == nil || depth > 20 {
+		return "?"
+	}
+	switch rt.Kind {
+	case spec.Array:
+		return "array<" + collSig(sp, rt.Elem.Type, depth+1) + ">"
+	case spec.Map:
+		return "map<" + collSig(sp, rt.Key.Type, depth+1) + "," + collSig(sp, rt.Elem.Type, depth+1) + ">"
+	case spec.Int, spec.Int32:
+		return "sint32"
+	case spec.UInt, spec.UInt32:
+		return "uint32"
+	case spec.Object, spec.Union:
+		if t.Kind == spec.Ref {
+			return "msg:" + t.Ref
+		}
+		return "msg"
+	}
+	return rt.Kind
+}
+
+func valSig(sp *spec.Spec, a *spec.Attr, depth int) string {
+	if a == nil || depth > 20 {
+		return ""
+	}
+	var parts []string
+	for _, v := range valgen.AllVals(sp, a.Type, a.Val) {
+		b, _ := json.Marshal(v)
+		parts = append(parts, string(b))
+	}
+	out := strings.Join(parts, "&")
+	rt, _ := sp.Resolve(a.Type)
+	if rt != nil {
+		switch rt.Kind {
+		case spec.Array:
+			out += "[" + valSig(sp, rt.Elem, depth+1) + "]"
+		case spec.Map:
+			out += "{" + valSig(sp, rt.Key, depth+1) + ":" + valSig(sp, rt.Elem, depth+1) + "}"
+		}
+	}
+	return out
+}
+
+func isColl(sp *spec.Spec, t *spec.Type) bool {
+	rt, _ := sp.Resolve(t)
+	return rt != nil && (rt.Kind == spec.Array || rt.Kind == spec.Map)
+}
+
+// sharedWrappers returns the structures of nested collections that occur in the service with more than one
+// set of validations.
+func sharedWrappers(sp *spec.Spec, sv *spec.Service) map[string]bool {
+	vals := map[string]map[string]bool{}
+	seen := map[string]bool{}
+	var walk func(a *spec.Attr, inColl bool, depth int)
+	walk = func(a *spec.Attr, inColl bool, depth int) {
+		if a == nil || a.Type == nil || depth > 30 {
+			return
+		}
+		if a.Type.Kind == spec.Ref {
+			ut := sp.Type(a.Type.Ref)
+			if ut == nil {
+				return
+			}
+			if ut.Kind != "alias" && ut.Def != nil && ut.Def.Kind == spec.Object {
+				if seen[a.Type.Ref] {
+					return
+				}
+				seen[a.Type.Ref] = true
+			}
+		}
+		rt, _ := sp.Resolve(a.Type)
+		if rt == nil {
+			return
+		}
+		switch rt.Kind {
+		case spec.Array, spec.Map:
+			if inColl {
+				sig := collSig(sp, a.Type, 0)
+				if vals[sig] == nil {
+					vals[sig] = map[string]bool{}
+				}
+				vals[sig][valSig(sp, a, 0)] = true
+			}
+			walk(rt.Elem, true, depth+1)
+		case spec.Object, spec.Union:
+			for _, at := range rt.Attrs {
+				walk(at, false, depth+1)
+			}
+		}
+	}
+	for _, m := range sv.Methods {
+		for _, a := range []*spec.Attr{m.Payload, m.StreamP, m.Result} {
+			walk(a, false, 0)
+		}
+	}
+	out := map[string]bool{}
+	for sig, vs := range vals {
+		if len(vs) > 1 {
+			out[sig] = true
+		}
+	}
+	return out
+}
+
+// holdsShared reports whether v holds a nested collection of one of the given structures.
+func holdsShared(sp *spec.Spec, t *spec.Type, v any, shared map[string]bool, inColl bool, depth int) bool {
+	rt, _ := sp.Resolve(t)
+	if rt == nil || v == nil || depth > 40 || len(shared) == 0 {
+		return false
+	}
+	switch rt.Kind {
+	case spec.Array:
+		if inColl && shared[collSig(sp, t, 0)] {
+			return true
+		}
+		arr, _ := v.([]any)
+		for _, e := range arr {
+			if holdsShared(sp, rt.Elem.Type, e, shared, true, depth+1) {
+				return true
+			}
+		}
+	case spec.Map:
+		if inColl && shared[collSig(sp, t, 0)] {
+			return true
+		}
+		if m, ok := vtree.IsMap(v); ok {
+			for _, e := range m {
+				if holdsShared(sp, rt.Elem.Type, e, shared, true, depth+1) {
+					return true
+				}
+			}
+		}
+	case spec.Object:
+		o, _ := v.(map[string]any)
+		for _, a := range rt.Attrs {
+			if holdsShared(sp, a.Type, o[a.Name], shared, false, depth+1) {
+				return true
+			}
+		}
+	case spec.Union:
+		if n, uv, ok := vtree.IsUnion(v); ok {
+			if alt := rt.Attr(n); alt != nil {
+				return holdsShared(sp, alt.Type, uv, shared, false, depth+1)
+			}
+		}
+	}
+	return false
+}
+
+func sharedTag(sp *spec.Spec, sv *spec.Service, a *spec.Attr, vals ...any) []string {
+	if a == nil || sv == nil {
+		return nil
+	}
+	shared := sharedWrappers(sp, sv)
+	for _, v := range vals {
+		if holdsShared(sp, a.Type, v, shared, false, 0) {
+			return []string{"shared-wrapper-validation"}
+		}
+	}
+	return nil
 }
 
 // exclMaxIgnored reports whether v holds, somewhere, a number that is >= the ExclusiveMaximum of an attribute
@@ -314,11 +489,12 @@ func exclMaxIgnored(sp *spec.Spec, t *spec.Type, val *spec.Val, v any, depth int
 	return false
 }
 
-func exclTags(sp *spec.Spec, a *spec.Attr, v any) []string {
+func exclTags(sp *spec.Spec, sv *spec.Service, a *spec.Attr, v any) []string {
+	var out []string
 	if a != nil && exclMaxIgnored(sp, a.Type, a.Val, v, 0) {
-		return []string{"both-exclusive-bounds"}
+		out = append(out, "both-exclusive-bounds")
 	}
-	return nil
+	return append(out, sharedTag(sp, sv, a, v)...)
 }
 
 // gShape says where in a value a rule was broken: the value itself (a primitive or collection payload /
@@ -353,7 +529,6 @@ func gShape(sp *spec.Spec, t *spec.Type, path, vkind string) string {
 	}
 	return "nested"
 }
-
 
 // ruleShape renders the (rule, shape) part of a key. Rules broken in the payload / result / streamed message
 // ITSELF (a primitive or collection body, or an element of a collection body) or in a collection nested in a
@@ -567,7 +742,7 @@ func gPanicSite(text string) string {
 func C10RT(sp *spec.Spec, ex *rt.GExchange) *GVerdict {
 	v := &GVerdict{}
 	c := ex.Case
-	_, m := sp.FindMethod(c.Svc, c.Method)
+	sv, m := sp.FindMethod(c.Svc, c.Method)
 	if m == nil {
 		v.Inconclusive = "unknown method"
 		return v
@@ -655,7 +830,7 @@ func C10RT(sp *spec.Spec, ex *rt.GExchange) *GVerdict {
 		pv := pviol[0]
 		where := ruleWhere(pv, metaOf)
 		if reached {
-			v.add(gKey("invalid-reached-stub", "rt:invalid-message-reached-stub:"+ruleShape(pv.Rule, where, gShape(sp, m.Payload.Type, pv.Path, pv.Kind)), exclTags(sp, m.Payload, c.Sent)),
+			v.add(gKey("invalid-reached-stub", "rt:invalid-message-reached-stub:"+ruleShape(pv.Rule, where, gShape(sp, m.Payload.Type, pv.Path, pv.Kind)), exclTags(sp, sv, m.Payload, c.Sent)),
 				"payload sent through %s breaks rule %s at %s (site %v) yet the service method ran with %s", via, pv.Rule, pv.Path, c.Note["site"], vtree.Show(ex.StubIn.Payload))
 			return v
 		}
@@ -674,7 +849,7 @@ func C10RT(sp *spec.Spec, ex *rt.GExchange) *GVerdict {
 	// ---------------- clause 1: valid payload must be delivered intact
 	tags := []string{}
 	if m.Payload != nil && !c.NoPay {
-		tags = explainG(sp, m.Payload.Type, c.Sent)
+		tags = append(explainG(sp, m.Payload.Type, c.Sent), sharedTag(sp, sv, m.Payload, c.Sent)...)
 	}
 	if o, ok := c.Sent.(map[string]any); ok && m.Payload != nil {
 		if prt, _ := sp.Resolve(m.Payload.Type); prt != nil && prt.Kind == spec.Object {
@@ -730,19 +905,19 @@ func C10RT(sp *spec.Spec, ex *rt.GExchange) *GVerdict {
 		recv := ex.StubIn.Recv
 		if firstBad >= 0 {
 			v.clause("reject-stream-message")
-			sv := sviol[0]
+			bv := sviol[0]
 			if len(recv) > firstBad {
-				v.add(gKey("invalid-reached-stub", "rt:invalid-message-reached-stub:"+ruleShape(sv.Rule, "stream", gShape(sp, m.StreamP.Type, sv.Path, sv.Kind)), exclTags(sp, m.StreamP, c.Stream[firstBad])),
-					"streamed message #%d sent through %s breaks rule %s at %s yet the service method read it from the stream: %s", firstBad, via, sv.Rule, sv.Path, vtree.Show(recv[firstBad]))
+				v.add(gKey("invalid-reached-stub", "rt:invalid-message-reached-stub:"+ruleShape(bv.Rule, "stream", gShape(sp, m.StreamP.Type, bv.Path, bv.Kind)), exclTags(sp, sv, m.StreamP, c.Stream[firstBad])),
+					"streamed message #%d sent through %s breaks rule %s at %s yet the service method read it from the stream: %s", firstBad, via, bv.Rule, bv.Path, vtree.Show(recv[firstBad]))
 			} else {
-				v.seen("reject_codes", "stream:"+status+":"+sv.Rule)
+				v.seen("reject_codes", "stream:"+status+":"+bv.Rule)
 			}
 			return v
 		}
 		v.clause("stream-c2s")
 		v.seen("stream_kinds_driven", kind)
 		if ex.StubIn.RecvEnd != "eof" {
-			t := explainStream(sp, m.StreamP.Type, c.Stream)
+			t := append(explainStream(sp, m.StreamP.Type, c.Stream), sharedTag(sp, sv, m.StreamP, c.Stream...)...)
 			if hasTag(t, "required-empty-collection") {
 				v.Ambiguous = append(v.Ambiguous, "required-empty-collection")
 				return v
@@ -827,7 +1002,7 @@ func C10RT(sp *spec.Spec, ex *rt.GExchange) *GVerdict {
 			v.clause("reject-result")
 			if len(co.Recv) > bad {
 				rv := rviol[0]
-				v.add(gKey("invalid-result-accepted", "rt:invalid-result-accepted-by-client:"+ruleShape(rv.Rule, "stream", gShape(sp, m.Result.Type, rv.Path, rv.Kind)), exclTags(sp, m.Result, oc.Stream[bad])),
+				v.add(gKey("invalid-result-accepted", "rt:invalid-result-accepted-by-client:"+ruleShape(rv.Rule, "stream", gShape(sp, m.Result.Type, rv.Path, rv.Kind)), exclTags(sp, sv, m.Result, oc.Stream[bad])),
 					"streamed result #%d breaks rule %s at %s yet the generated client stream returned it: %s", bad, rv.Rule, rv.Path, vtree.Show(co.Recv[bad]))
 			}
 			return v
@@ -839,7 +1014,7 @@ func C10RT(sp *spec.Spec, ex *rt.GExchange) *GVerdict {
 			return v
 		}
 		if co.RecvEnd != "eof" {
-			t := explainStream(sp, m.Result.Type, oc.Stream)
+			t := append(explainStream(sp, m.Result.Type, oc.Stream), sharedTag(sp, sv, m.Result, oc.Stream...)...)
 			if hasTag(t, "required-empty-collection") {
 				v.Ambiguous = append(v.Ambiguous, "required-empty-collection")
 				return v
@@ -883,13 +1058,13 @@ func C10RT(sp *spec.Spec, ex *rt.GExchange) *GVerdict {
 		v.clause("reject-result")
 		if !failed {
 			rv := rviol[0]
-			v.add(gKey("invalid-result-accepted", "rt:invalid-result-accepted-by-client:"+ruleShape(rv.Rule, ruleWhere(rv, respOf), gShape(sp, m.Result.Type, rv.Path, rv.Kind)), exclTags(sp, m.Result, oc.Result)),
+			v.add(gKey("invalid-result-accepted", "rt:invalid-result-accepted-by-client:"+ruleShape(rv.Rule, ruleWhere(rv, respOf), gShape(sp, m.Result.Type, rv.Path, rv.Kind)), exclTags(sp, sv, m.Result, oc.Result)),
 				"result breaks rule %s at %s yet the generated client returned it: %s", rv.Rule, rv.Path, vtree.Show(co.Result))
 		}
 		return v
 	}
 	v.clause("response-roundtrip")
-	rtags := explainG(sp, m.Result.Type, oc.Result)
+	rtags := append(explainG(sp, m.Result.Type, oc.Result), sharedTag(sp, sv, m.Result, oc.Result)...)
 	if failed {
 		if hasTag(rtags, "required-empty-collection") {
 			v.Ambiguous = append(v.Ambiguous, "required-empty-collection")
